@@ -75,6 +75,8 @@ class Gen:
         lo = "REF_LOW32" if is_s(op) else ""
         pre = pre_of(op)
         n = "i3_%s_%s" % (op, shape if imm is None else "imm%s" % (str(imm).replace("-", "m")))
+        if any(c["name"] == n for c in self.cases):
+            return  # the shortcut immediates 0 / 1 are also on the thorough grid
         mop = op.lower()
         if shape == "rrr":
             self.func("f_" + n, "i64, i64:a, i64:b", ["local i64:r", "%s r, a, b" % mop, "ret r"])
